@@ -12,10 +12,10 @@ CHECKS = {
             "Held on every (prefix x opcode x second byte) head explored (thorough: the complete 1.1M structural space) with sampled payload bytes; each head decoded by get_instruction_info/text/low_level_il and Emulator.decode_instruction, re-decoded after mutations of trailing bytes, after truncation and after other decodes. Not a proof: payload bytes are sampled.",
             "Trusts binja_test_mocks as the Binary Ninja stand-in; payload bytes beyond the second byte are sampled.",
             "DESIGN.md 3/C01"),
-    "C02": ("exploration; complete second-byte sweeps of the memory-indirect and register-indirect families",
+    "C02": ("exploration",
             "runtime round-trip monitor on the real decode/encode and the arch text guard over enumerated encodings + don't-care bit sweeps",
             "Held on every accepted structural head explored plus complete sweeps of selector bytes and ignored high nibbles: encode(decode(b)) reproduces the consumed bytes, the re-decoded instruction has the same tokens, length and IL, and get_instruction_text never demotes an accepted encoding.",
-            "Pure equality on the code's own functions; payload bytes sampled.", "DESIGN.md 3/C02 All 256 second bytes (all prefixes) of the [(n)], [r3] and [r3+-n] opcode families are swept in both tiers."),
+            "Pure equality on the code's own functions; payload bytes sampled.", "DESIGN.md 3/C02"),
     "C03": ("exploration",
             "execution monitor: logging memory + logging register file around Emulator.execute_instruction, access sets compared with a README-derived addressing oracle fed by the rendered token stream",
             "Held (modulo listed known findings) on every accepted head executed in states that make every addressing base distinguishable: write set, data-read set and pointer side effects equal what the text denotes. Undetermined cases are counted as unjudged.",
@@ -24,10 +24,10 @@ CHECKS = {
             "execution monitor against a README reference interpreter: complete post-state comparison incl. frame condition, exhaustive 8-bit operation tables",
             "Held (modulo listed known findings) on complete 2^17 operand tables per 8-bit operation (thorough), all unary tables, valid-BCD tables, every encoding with planted boundary operands, counted forms for I up to 255: result, C, Z, pointer/counter/stack effects equal the README and nothing else changes.",
             "Trusts vt/refisa.py; README-undetermined outputs are don't-care and listed in the evidence.", "DESIGN.md 3/C04"),
-    "C05": ("exploration; one long-lived emulator executing the same bytes at another address first",
+    "C05": ("exploration",
             "execution monitor: InstructionInfo.branches from the real get_instruction_info compared with the PC observed on the real Emulator under all flag values; inverse-pair programs",
             "Held on all branch/call/return opcodes x prefixes x a page-boundary address grid x operand boundaries x 4 flag values, on the fall-through clause over every accepted head, and on generated CALL/RET, CALLF/RETF, IR/RETI programs with random stack-neutral bodies.",
-            "binja_test_mocks stands in for Binary Ninja; IR vector planted in flat memory.", "DESIGN.md 3/C05 Each branch case is also executed on a long-lived emulator after the same bytes ran at another address (same PC as on a fresh emulator)."),
+            "binja_test_mocks stands in for Binary Ninja; IR vector planted in flat memory.", "DESIGN.md 3/C05"),
     "C06": ("exploration",
             "differential execution monitor: real Python Emulator vs real Rust LlamaExecutor (client harness binary) on identical flat memories, single instructions and lockstep programs; Rust overflow/debug-assert panics caught per case",
             "Held (modulo mechanism-keyed known findings) on every Python-accepted structural head x {distinguishing, boundary, random} states and on seeded programs compared after every step. Known findings are matched by mechanism predicate + field-subset, so any other disagreement is a fresh violation.",
@@ -36,19 +36,19 @@ CHECKS = {
             "hidden-state differential monitors on both real cores (fresh vs long-lived core with poisoned TEMPs / call bookkeeping / perf counters / a low-power flag left by earlier HALT), same-address twin re-execution (last instruction byte changed) against decode caches, read-before-write taint monitor on the register file, split-run comparison, 8-thread stress of the Rust process-wide statics, two-process digest comparison",
             "Held on every sampled head executed after an arbitrary history of earlier cases with poisoned hidden state, on programs run continuously vs through CPUStepper snapshots (Python) and vs executor/state rebuilt from architectural registers every 1/3/7 steps (Rust), on 8 concurrent Rust runtimes with yield injection, and across two fresh processes with different hash seeds.",
             "Architectural outputs only; the Rust ASan/TSan/Miri runtimes are not available offline, so the thread stress is an oracle over results, not a race detector.", "DESIGN.md 3/C07"),
-    "C08": ("exploration; PC through pc()/set_pc(); runtime snapshot files over two generations",
+    "C08": ("exploration",
             "reference-model monitor after every write on the real Python Registers, Rust LlamaState and CoreRuntime named API; icontract postcondition in the path of Registers.set; snapshot/blob round-trip and cross-exchange",
             "Held on the complete ordered-pair enumeration (14 names x 14 names x 10 x 10 boundary values) and on seeded sequences up to 64 writes with interleaved snapshot->apply round trips and Python<->Rust register-blob exchange; all 14 readable names compared after every write.",
-            "Reference register file is the property statement; TEMPs and IMR out of scope.", "DESIGN.md 3/C08 PC is also named through the dedicated accessors; register snapshots travel through the runtime's own files for two generations."),
-    "C09": ("exploration; complete register-pair selector sweeps in the quick tier",
+            "Reference register file is the property statement; TEMPs and IMR out of scope.", "DESIGN.md 3/C08"),
+    "C09": ("exploration",
             "round-trip monitor: rendered token stream -> assembler text -> real Assembler -> real decoder, compared on text/length/IL, second round fixed point",
             "Held (modulo mechanism-keyed known findings) on one case per distinct text shape the disassembler can produce (quick: capped per shard; thorough: all shapes x 6 operand variants incl. IMEM-name collisions).",
             "Equivalence judged by the disassembler's own text and the lifter's own IL; ignored bits need not survive.", "DESIGN.md 3/C09"),
-    "C10": ("exploration; code/text sections continued without a new origin",
+    "C10": ("exploration",
             "wrapped pass-1/pass-2 hooks on the real Assembler + independent layout walk + per-statement metamorphic oracle + statelessness/determinism monitors over grammar-generated programs",
             "Held (modulo listed findings) on seeded programs of 5-60 lines covering labels, sections, .ORG, all data directives and symbolic operands, and on all 2-statement combinations of construct classes: pass-1 sizes == pass-2 bytes, statement addresses and label values == independent walk, image == standalone statements, deterministic and history-free, page rule enforced.",
             "Well-formedness is by construction of the generator; rejections of admitted constructs are keyed by construct.", "DESIGN.md 3/C10"),
-    "C11": ("exploration; wide CPU stores across LCD window edges",
+    "C11": ("exploration",
             "PC-E500 loader probes (ROM window / system image of several lengths, stores of every width into ROM/vectors/no-RAM window), wide internal stores vs byte stores through the CPU bus, reference byte-store monitor + conservation diff of every backing array after each store + alias/twin probes + wide-vs-byte metamorphic oracle on the real PCE500Memory and MemoryImage; CPU-facing Rust bus through CoreRuntime::step",
             "Held (modulo listed findings) on every memory configuration x seeded histories of 8/16/24-bit accesses concentrated on region boundaries and 32-bit aliases: reads equal the last write (RAM) or the image (ROM/read-only/absent), stores change only the written locations in ALL backing stores, aliases agree, wide accesses compose little-endian.",
             "Device windows without installed handlers behave as plain memory; reference knows only the applied configuration.", "DESIGN.md 3/C11"),
@@ -56,22 +56,22 @@ CHECKS = {
             "online trace checker over per-step observation records of the real PCE500Emulator and CoreRuntime (entry recognised from architectural effects, shadow frame stack for RETI, bounded-progress counter, HALT/OFF clauses) under enumerated and seeded event schedules; hook on _set_isr_bits for the KEYI clause",
             "Held (modulo listed findings) on all event sequences up to depth 2 at all placements in a 10-step window (thorough: depth 3 over a 14-event alphabet) for 3 base programs and on seeded runs of 50-400 steps over 7 main-loop shapes (busy, HALT, OFF, WAIT, master-enable toggling by byte and by 16-bit store, software interrupts) with and without PCE500Emulator.fast_mode, a phase sweep of every timer period against every loop, stack frames on every alignment across overlay/card edges, directed key/ON-key-during-handler windows, and handlers ending in plain or PRE-prefixed RETI with timers of period 1-9 cycles, key/ON events and firmware-style IMR/ISR writes: every entry had master+source enable and a pending bit, pushed [IMR,F,PC] frame correct, bit 7 cleared, RETI restored PC/F/IMR/S, eligible requests delivered within 2 boundaries, halted CPUs frozen and woken exactly by status bits.",
             "Handlers start with NOP so both delivery conventions expose the frame; liveness restated as bounded progress.", "DESIGN.md 3/C12"),
-    "C13": ("exploration; main loop executing RESET; Python restart (reset()) variant of the re-arm stage",
+    "C13": ("exploration",
             "reference-arithmetic monitor + cross-core comparison on every tick of the real TimerScheduler.advance and TimerContext::tick_timers; icontract postcondition on advance(); machine-level runs of both real machines with a counting hook on advance() (one fire per boundary crossed, also inside multi-cycle WAIT) and live keyboard",
             "Held on all period pairs 0..12 x 0..12 x enabled, sampled large periods, every-cycle and gap sequences with resets and snapshot/restore points: fire pattern, next targets strictly in the future, ISR bits, exactly-once on every-cycle sequences, Python == Rust.",
-            "Unit level plus machine level (NOP/HALT/WAIT programs, complete small period grid incl. period 0); for gaps longer than a period the statement promises one fire and a target in the future only.", "DESIGN.md 3/C13 Programs that execute RESET keep the timer grid; PCE500Emulator.reset() at every step (incl. inside the handler) must leave the timer interrupting."),
-    "C14": ("exploration; initial strobe state delivered inside a loaded snapshot (Rust)",
+            "Unit level plus machine level (NOP/HALT/WAIT programs, complete small period grid incl. period 0); for gaps longer than a period the statement promises one fire and a target in the future only.", "DESIGN.md 3/C13"),
+    "C14": ("exploration",
             "online clause monitor driven by the ground truth of issued operations (KIL soundness/completeness, per-key event automaton with cadence and bounded release, FIFO only-oldest-dropped, KEYI edge) on the real Python KeyboardMatrix/handler and Rust KeyboardMatrix; icontract invariant on _enqueue_event",
             "Held (modulo listed findings) on seeded adversarial histories under both polarities and 81 threshold settings (incl. bursts of 9-14 keys debounced on one tick, repeat switched off, polarity through the setter), and on all histories up to length 4/5 over a 3-key/2-strobe alphabet; the queue is compared with the tail of (previous queue + generated events), release events need `release` consecutive gap ticks.",
             "Each model is judged at its own documented consumption points; Python KEYI is monitored at machine level in C12.", "DESIGN.md 3/C14"),
-    "C15": ("exploration; earlier snapshots stay values; fresh-replay render equality (Python)",
+    "C15": ("exploration",
             "reference HD61202-pair monitor after every window access on the real Python HD61202Controller and Rust LcdController, cross-model comparison, complete VRAM-bit -> pixel ownership enumeration, per-write display diff",
             "Held (modulo listed findings) on seeded histories (with mid-history controller resets) over all 16 low-nibble decodings and mirrors, on all sequences of <= 2/3 operations over a 24-op alphabet, and on the complete 8192-bit flip map of both models (Rust under 5 start lines): state, read values, one-owner-per-pixel, one column per data write.",
-            "Reference is the protocol text of the property; display composition is compared per model only.", "DESIGN.md 3/C15 A kept get_snapshot() result must not change later; a fresh controller replaying the history renders the same picture."),
-    "C16": ("fault_enumeration; directed keyboard-interrupt runs with a KEY-handler reach counter",
+            "Reference is the protocol text of the property; display composition is compared per model only.", "DESIGN.md 3/C15"),
+    "C16": ("fault_enumeration",
             "record-by-record comparison of the observed future of the original machine and of a freshly constructed machine that loaded the snapshot, with the snapshot taken at EVERY step boundary of seeded runs of the real PCE500Emulator and CoreRuntime; metamorphic no-perturbation run; cross-model load of every 3rd snapshot; registers.bin decoded against live registers",
             "Held (modulo listed findings) for every step boundary as snapshot point of 64 (quick) / 320 (thorough) seeded runs per model (running, halted, powered off, inside hardware and software-interrupt handlers incl. nested, pending/masked requests, keys held, FIFO non-empty/full, LCD busy, mid-subroutine, card window edges) x K=30/45 further steps and inputs: registers, all IMEM bytes, RAM, stack, LCD registers+VRAM, KIL/FIFO, ISR/IMR, power state identical at every step; saving never perturbed the original; each model loaded the other's files into the same observable state.",
-            "Continuations are bounded (K steps); bookkeeping-only fields (counters, last source) are counted, not judged.", "DESIGN.md 3/C16 Snapshot points inside the KEY handler (handler reading KIL with and without acknowledging) are a required monitor."),
+            "Continuations are bounded (K steps); bookkeeping-only fields (counters, last source) are counted, not judged.", "DESIGN.md 3/C16"),
     "C17": ("other",
             "complete comparison of live tables dumped from the running Python modules and the real Rust crate + behavioural recovery of private tables by executed probes on both cores",
             "All 256 opcode entries x 4 fields, decoded-instance operand widths of every MVW/EXW/MVP/EXP encoding, immediate-width and register-selector behaviour of both cores, register width/layout copies, ~100 constants, 87 key codes, 15 PRE bytes, 58 single-operand opcodes x 2 prefixes, both vectors, both Binary Ninja views: compared completely (finite space).",
@@ -109,12 +109,33 @@ EXTRA = {
 }
 
 
+# round 10 additions (same shape as EXTRA; applied after it)
+EXTRA2 = {
+    "C02": ("; complete second-byte sweeps of the memory-indirect and register-indirect families",
+            " All 256 second bytes (all prefixes) of the [(n)], [r3] and [r3+-n] opcode families are swept in both tiers."),
+    "C05": ("; one long-lived emulator executing the same bytes at another address first",
+            " Each branch case is also executed on a long-lived emulator after the same bytes ran at another address (same PC as on a fresh emulator)."),
+    "C08": ("; PC through pc()/set_pc(); runtime snapshot files over two generations",
+            " PC is also named through the dedicated accessors; register snapshots travel through the runtime's own files for two generations."),
+    "C09": ("; complete register-pair selector sweeps in the quick tier", ""),
+    "C10": ("; code/text sections continued without a new origin", ""),
+    "C11": ("; wide CPU stores across LCD window edges", ""),
+    "C13": ("; main loop executing RESET; Python restart (reset()) variant of the re-arm stage",
+            " Programs that execute RESET keep the timer grid; PCE500Emulator.reset() at every step (incl. inside the handler) must leave the timer interrupting."),
+    "C14": ("; initial strobe state delivered inside a loaded snapshot (Rust)", ""),
+    "C15": ("; earlier snapshots stay values; fresh-replay render equality (Python)",
+            " A kept get_snapshot() result must not change later; a fresh controller replaying the history renders the same picture."),
+    "C16": ("; directed keyboard-interrupt runs with a KEY-handler reach counter",
+            " Snapshot points inside the KEY handler (handler reading KIL with and without acknowledging) are a required monitor."),
+}
+
+
 def main():
     checks = []
     for pid, (cat, tech, text, note, ref) in sorted(CHECKS.items()):
         c = pid.lower()
-        tech += EXTRA.get(pid, ("", ""))[0]
-        text += EXTRA.get(pid, ("", ""))[1]
+        tech += EXTRA.get(pid, ("", ""))[0] + EXTRA2.get(pid, ("", ""))[0]
+        text += EXTRA.get(pid, ("", ""))[1] + EXTRA2.get(pid, ("", ""))[1]
         checks.append({
             "property_id": pid,
             "quick_cmd": f"/venv/bin/python -m vt.run {c} --tier quick",
